@@ -343,6 +343,11 @@ P2P_GOALS = {
                                 {"a": "Pub", "s": "s2", "t": "p12", "c": "c2", "noecho": False, "chan": False},
                                 {"a": "Pub", "s": "s1", "t": "p12", "c": "c1", "noecho": False, "chan": False},
                                 {"a": "Get", "s": "s2", "t": "p12", "what": "desc sub", "since": 0, "before": 0, "limit": 0, "chan": False}]),
+    # a participant unsubscribes from its attached session while the peer keeps the topic loaded: later messages must not reach it
+    "p2p_leave_unsub_then_publish": ('st.topics["p12"].exists /\\ st.topics["p12"].seq > 0 /\\ "p12" \\in M(st.sess["s1"].subs) /\\ "p12" \\in M(st.sess["s2"].subs)',
+                                     [{"a": "Leave", "s": "s2", "t": "p12", "unsub": True, "chan": False},
+                                      {"a": "Pub", "s": "s1", "t": "p12", "c": "c1", "noecho": False, "chan": False},
+                                      {"a": "Pub", "s": "s1", "t": "p12", "c": "c2", "noecho": True, "chan": False}]),
     "p2p_both_attached_with_history": ('st.topics["p12"].exists /\\ st.topics["p12"].seq > 1 /\\ Len(st.cache["p12"].att) >= 2',
                                        [{"a": "Reload", "t": "p12"},
                                         {"a": "Pub", "s": "s1", "t": "p12", "c": "c1", "noecho": True, "chan": False},
@@ -374,6 +379,16 @@ MARK_GOALS = {
 }
 # notes relayed while the users' OTHER sessions sit on 'me' only (typing notes must not come back to the typist) - needs me topics
 NOTE_GOALS = {
+    # a subscriber who gave up R but kept P, with a second session on 'me' only: notes of the others must not be relayed to it
+    # (infoSubsOffline requires presence AND read permission of the recipient)
+    "non_reader_with_second_session_on_me": ('st.topics["g1"].exists /\\ st.topics["g1"].seq >= 1 /\\ "g1" \\in M(st.sess["s1"].subs) /\\ "g1" \\in M(st.sess["s2"].subs)',
+                                             [{"a": "Sub", "s": "s4", "t": "me", "mode": ["-"], "chan": False, "bg": False},
+                                              {"a": "SetSelf", "s": "s2", "t": "g1", "mode": ["J", "W", "P"], "chan": False},
+                                              {"a": "Note", "s": "s1", "t": "g1", "what": "kp", "seq": 0, "chan": False},
+                                              {"a": "Note", "s": "s1", "t": "g1", "what": "recv", "seq": 1, "chan": False},
+                                              {"a": "Note", "s": "s1", "t": "g1", "what": "read", "seq": 1, "chan": False},
+                                              {"a": "Leave", "s": "s2", "t": "g1", "unsub": False, "chan": False},
+                                              {"a": "Note", "s": "s1", "t": "g1", "what": "kp", "seq": 0, "chan": False}]),
     "typists_with_second_session_on_me": ('st.topics["g1"].exists /\\ st.topics["g1"].seq >= 1 /\\ "g1" \\in M(st.sess["s1"].subs) /\\ "g1" \\in M(st.sess["s2"].subs)',
                                           [{"a": "Sub", "s": "s3", "t": "me", "mode": ["-"], "chan": False, "bg": False},
                                            {"a": "Sub", "s": "s4", "t": "me", "mode": ["-"], "chan": False, "bg": False},
@@ -436,6 +451,12 @@ CHAN_GOALS = {
                                             {"a": "Pub", "s": "s1", "t": "g1", "c": "c1", "noecho": False, "chan": False},
                                             {"a": "Pub", "s": "s3", "t": "g1", "c": "c2", "noecho": False, "chan": True},
                                             {"a": "Pub", "s": "s1", "t": "g1", "c": "c2", "noecho": True, "chan": True}]),
+    # a channel reader unsubscribes from its attached session while the topic stays loaded: later messages must not reach it
+    "channel_reader_unsubscribes": ('st.topics["g1"].exists /\\ st.topics["g1"].ischan /\\ "g1" \\in M(st.sess["s1"].subs) '
+                                    '/\\ (\\E x \\in AttOf(st.cache["g1"]) : x.s = "s3" /\\ x.chan)',
+                                    [{"a": "Leave", "s": "s3", "t": "g1", "unsub": True, "chan": True},
+                                     {"a": "Pub", "s": "s1", "t": "g1", "c": "c1", "noecho": False, "chan": False},
+                                     {"a": "Pub", "s": "s1", "t": "g1", "c": "c2", "noecho": True, "chan": False}]),
 }
 # a reader without delete permission asks for a HARD delete (silently degrades to soft: nobody else's view changes)   C04
 HIST_GOALS = {
